@@ -87,7 +87,9 @@ impl<'a> Lexer<'a> {
     { unimplemented!() }
 }
 #[verifier::external_body]
-pub fn match_keyword<'a>(word: &'a str) -> (r: Option<TokenType<'a>>) ensures r == sp_keyword(word) { unimplemented!() }
+pub fn match_keyword<'a>(word: &'a str) -> (r: Option<TokenType<'a>>) ensures r == sp_keyword(word), no_newline_keyword(word) { unimplemented!() }
+/// no KEYWORDS entry maps to TokenType::Newline (by inspection of the table)
+pub open spec fn no_newline_keyword(word: &str) -> bool { !(sp_keyword(word) matches Some(t) && t is Newline) }
 #[verifier::external_body]
 pub fn str_len(s: &str) -> (r: usize) ensures r == sp_len(s) { unimplemented!() }
 /// `hay.strip_prefix(needle)` is Some exactly when hay starts with needle; an ASCII needle found at a boundary ends at a boundary
@@ -113,6 +115,7 @@ impl<'a> Lexer<'a> {
         ensures final(self).buf == old(self).buf, final(self).line == old(self).line, final(self).line_start == old(self).line_start,
             final(self).cursor@ == old(self).cursor@, r.end == end, r.newlines == 0, r.new_line_start is None,
             r.token.range.start == (SourceLocation { line: old(self).line, column: (start - old(self).line_start) as u32 }),
+            r.token.range.end.line == old(self).line, !(r.token.id is Newline),
     { unimplemented!() }
 }
 
@@ -162,6 +165,31 @@ impl<'a> Lexer<'a> {
     /// `self.buf.len()`
     #[verifier::external_body] pub fn buf_len(&self) -> (r: usize) ensures r == sp_len(self.buf) { unimplemented!() }
 }
+// ---- str::strip_suffix / trim_end_matches (assumed: their documented meaning, and that what they return is a prefix of the
+// word, hence ends on a character boundary of the buffer the word was cut from)
+pub uninterp spec fn sp_ends_with(word: &str, lit: &str) -> bool;
+pub uninterp spec fn sp_trimmed_len(word: &str, c: char) -> int;      // length of word.trim_end_matches(c)
+/// `word` is buf[a..b)
+pub open spec fn is_sub(word: &str, buf: &str, a: int, b: int) -> bool { slice_ok(buf, a, b) && word == sp_substr(buf, a, b) && sp_len(word) == b - a }
+#[verifier::external_body]
+pub fn strip_suffix<'x>(word: &'x str, lit: &str, Ghost(buf): Ghost<&str>, Ghost(a): Ghost<int>, Ghost(b): Ghost<int>) -> (r: Option<&'x str>)
+    requires is_sub(word, buf, a, b),
+    ensures r is Some == sp_ends_with(word, lit),
+        r matches Some(s) ==> sp_len(lit) <= b - a && is_sub(s, buf, a, b - sp_len(lit))
+            && (sp_len(lit) > 0 && sp_first_char(word) != sp_first_char(lit) ==> sp_len(s) > 0),
+{ unimplemented!() }
+#[verifier::external_body]
+pub fn trim_end_matches<'x>(word: &'x str, c: char, Ghost(buf): Ghost<&str>, Ghost(a): Ghost<int>, Ghost(b): Ghost<int>) -> (r: &'x str)
+    requires is_sub(word, buf, a, b),
+    ensures 0 <= sp_trimmed_len(word, c) <= b - a, is_sub(r, buf, a, a + sp_trimmed_len(word, c)),
+        b - a > 0 && sp_first_char(word) != c ==> sp_trimmed_len(word, c) > 0,
+{ unimplemented!() }
+/// the six spellings of the suffixes: ASCII, lengths 2 and 3, all starting with an apostrophe
+pub uninterp spec fn sp_lit(k: int) -> &'static str;
+#[verifier::external_body] pub fn suffix_lit(k: u8) -> (r: &'static str)
+    requires k < 6,
+    ensures r == sp_lit(k as int), sp_len(r) == (if k < 2 { 2int } else { 3int }), sp_first_char(r) == '\''
+{ ["'s", "'S", "'re", "'RE", "'Re", "'rE"][k as usize] }
 pub uninterp spec fn sp_char_at(buf: &str, i: int) -> char;
 pub uninterp spec fn sp_char_len(c: char) -> int;       // len_utf8: 1 for ASCII, at most 4
 impl<'a> Lexer<'a> {
